@@ -154,12 +154,12 @@ def read_registry(obj):
     return fn, cls, attr
 
 
-def run_impl(case, loop):
-    """-> observed behaviour {'calls': [(rid, args)], 'ret': description}"""
-    obj, log = build(case)
-    args = tuple(case['args'])
+def observe(obj, log, ev, ns, args, loop):
+    """One real `_trigger_event(ev, ns, *args)` on `obj`; -> {'calls': what the recorders saw during this
+    dispatch, 'ret': description of what came back}"""
+    del log.calls[:]
     try:
-        r = obj._trigger_event(case['ev'], case['ns'], *args)
+        r = obj._trigger_event(ev, ns, *args)
         if asyncio.iscoroutine(r):
             r = loop.run_until_complete(r)
         # a coroutine handler registered on a threaded class comes back un-awaited: run it to see
@@ -167,7 +167,7 @@ def run_impl(case, loop):
         if asyncio.iscoroutine(r):
             r = loop.run_until_complete(r)
     except Exception as ex:      # noqa
-        return {'calls': list(log.calls), 'ret': ('exc', type(ex).__name__, str(ex)[:80])}, obj, log
+        return {'calls': list(log.calls), 'ret': ('exc', type(ex).__name__, str(ex)[:80])}
     if isinstance(r, tuple) and len(r) == 2 and r[0] == 'token':
         ret = ('token', r[1])
     elif r is None:
@@ -176,7 +176,13 @@ def run_impl(case, loop):
         ret = ('not_handled',)
     else:
         ret = ('other', repr(r)[:60])
-    return {'calls': list(log.calls), 'ret': ret}, obj, log
+    return {'calls': list(log.calls), 'ret': ret}
+
+
+def run_impl(case, loop):
+    """-> observed behaviour {'calls': [(rid, args)], 'ret': description}"""
+    obj, log = build(case)
+    return observe(obj, log, case['ev'], case['ns'], tuple(case['args']), loop), obj, log
 
 
 def expected_view(kind, ans, case):
@@ -373,6 +379,351 @@ def execute(ctx, cases, loop, stats, nontrivial, samples):
             samples.append({'kind': case['kind'], 'case': case_json(case), 'impl': repr(impl), 'model': m})
 
 
+# ---------------------------------------------------------------------------------------------------
+# Evolving registries: the property speaks about the registry AS IT IS when the event arrives.  An
+# application may register handlers while traffic is already flowing, so a scenario here is ONE real
+# object that lives through a sequence of registrations (`on(...)` as a call, as a decorator,
+# `event(...)`, `register_namespace(...)`, a method added to a registered class-based namespace,
+# re-registration of a key with a NEW function / namespace object) with dispatches of the same
+# (namespace, event) pairs before the first and after every change.  Every single dispatch is judged
+#   * by the model, for the registry read back from the object at that moment (`resolve` is a function
+#     of an arbitrary registry, so a changing registry is a sequence of resolutions), and
+#   * by the property oracle, evaluated on the harness's own record of what was registered so far
+#     (built from the steps alone): the documented first-match table; the target must be the object
+#     registered LAST under the winning key.
+# The library offers no way to unregister a handler (no `off`/`unregister_*` in base_server.py /
+# base_client.py), so registries only grow or have keys replaced.
+# ---------------------------------------------------------------------------------------------------
+
+LOWEST_FIRST = ['clsStar', 'clsNs', 'fnStarStar', 'fnStarEv', 'fnNsStar', 'fnNsEv']
+VIAS = ['handler', 'decorator', 'event']
+
+
+def slot_step(slot, ns, ev, methods=None, via='handler'):
+    """the registration that fills `slot` of the precedence table for the pair (ns, ev)"""
+    if slot == 'fnNsEv':
+        return {'op': 'on', 'ns': ns, 'ev': ev, 'via': via}
+    if slot == 'fnNsStar':
+        return {'op': 'on', 'ns': ns, 'ev': '*', 'via': via}
+    if slot == 'fnStarEv':
+        return {'op': 'on', 'ns': '*', 'ev': ev, 'via': via}
+    if slot == 'fnStarStar':
+        return {'op': 'on', 'ns': '*', 'ev': '*', 'via': via}
+    return {'op': 'cls', 'ns': ns if slot == 'clsNs' else '*', 'methods': [ev] if methods is None else methods}
+
+
+class Shadow:
+    """What the application has registered so far — kept from the steps alone, never read from the
+    object under test."""
+
+    def __init__(self):
+        self.fn = {}        # (namespace key, event key) -> id of the function registered last
+        self.cls = {}       # namespace key -> {event: id of the on_<event> method} of the object registered last
+
+
+def slot_rids(sh, ns, ev):
+    """slot -> the recorder currently sitting in that slot for the pair (ns, ev), if any"""
+    return {'fnNsEv': sh.fn.get((ns, ev)), 'fnNsStar': sh.fn.get((ns, '*')),
+            'fnStarEv': sh.fn.get(('*', ev)), 'fnStarStar': sh.fn.get(('*', '*')),
+            'clsNs': sh.cls.get(ns, {}).get(ev), 'clsStar': sh.cls.get('*', {}).get(ev)}
+
+
+def oracle_dyn(kind, sh, ns, ev):
+    """The documented precedence table, first match wins, on the registrations made so far."""
+    reserved = ev in DOC_RESERVED[kind]
+    own = ns != '*'         # nothing can be registered for a namespace literally named '*' …
+    named = ev != '*'       # … nor for an event literally named '*': those keys are the catch-alls
+    if own and named and (ns, ev) in sh.fn:
+        return {'res': 'invoke', 'slot': 'fnNsEv', 'args': [], 'rid': sh.fn[(ns, ev)]}
+    if own and not reserved and (ns, '*') in sh.fn:
+        return {'res': 'invoke', 'slot': 'fnNsStar', 'args': [ev], 'rid': sh.fn[(ns, '*')]}
+    if named and ('*', ev) in sh.fn:
+        return {'res': 'invoke', 'slot': 'fnStarEv', 'args': [ns], 'rid': sh.fn[('*', ev)]}
+    if not reserved and ('*', '*') in sh.fn:
+        return {'res': 'invoke', 'slot': 'fnStarStar', 'args': [ev, ns], 'rid': sh.fn[('*', '*')]}
+    if own and ns in sh.cls:
+        if ev in sh.cls[ns]:
+            return {'res': 'invoke', 'slot': 'clsNs', 'args': [], 'rid': sh.cls[ns][ev]}
+        return {'res': 'dropped', 'slot': 'clsNs'}
+    if '*' in sh.cls:
+        if ev in sh.cls['*']:
+            return {'res': 'invoke', 'slot': 'clsStar', 'args': [ns], 'rid': sh.cls['*'][ev]}
+        return {'res': 'dropped', 'slot': 'clsStar'}
+    return {'res': 'notHandled'}
+
+
+def view_dyn(kind, ans, rid, args):
+    if ans['res'] == 'invoke':
+        return {'calls': [(rid, tuple(ans['args']) + tuple(args), {})], 'ret': ('token', rid)}
+    if ans['res'] == 'dropped':
+        return {'calls': [], 'ret': ('none',)}
+    return {'calls': [], 'ret': ('not_handled',) if kind in ('server', 'asyncServer') else ('none',)}
+
+
+def apply_step(obj, kind, log, sh, live, step, co, serial):
+    """Perform one registration through the public API and note it in the shadow registry."""
+    op = step['op']
+    key_ns = step['ns'] or '/'          # `namespace or '/'` is the documented default
+    if op == 'on':
+        rid = 'g%d:fn[%s][%s]' % (serial, key_ns, step['ev'])
+        rec = log.recorder(rid, co)
+        via = step.get('via', 'handler')
+        if via == 'handler':
+            obj.on(step['ev'], handler=rec, namespace=step['ns'])
+        elif via == 'decorator':
+            got = obj.on(step['ev'], namespace=step['ns'])(rec)
+            assert got is rec
+        else:               # @sio.event / @sio.event(namespace=…): the event name is the function's name
+            rec.__name__ = step['ev']
+            got = obj.event(rec) if step['ns'] is None else obj.event(namespace=step['ns'])(rec)
+            assert got is rec
+        sh.fn[(key_ns, step['ev'])] = rid
+    elif op == 'cls':
+        o = ns_class(kind)(step['ns'])
+        ms = {}
+        for ev in step['methods']:
+            ms[ev] = 'g%d:cls[%s].on_%s' % (serial, key_ns, ev)
+            setattr(o, 'on_' + ev, log.recorder(ms[ev], co))
+        obj.register_namespace(o)
+        sh.cls[key_ns] = ms
+        live[key_ns] = o
+    elif op == 'setattr':       # a method appears on (or is replaced on) the class-based namespace registered for the key
+        rid = 'g%d:cls[%s].on_%s' % (serial, key_ns, step['ev'])
+        setattr(live[key_ns], 'on_' + step['ev'], log.recorder(rid, co))
+        sh.cls[key_ns][step['ev']] = rid
+    else:
+        raise ValueError(op)
+
+
+def run_evolving(sc, loop):
+    """Execute a scenario on ONE real object; -> one record per dispatch."""
+    kind = sc['kind']
+    obj, log, sh, live = make_object(kind), Log(), Shadow(), {}
+    records = []
+    n = [0]
+
+    def dispatch(step_no, idxs):
+        for p in idxs:
+            ns, ev = sc['probes'][p]
+            n[0] += 1
+            args = ('sid-1', {'k': [1, 2]}, n[0])
+            impl = observe(obj, log, ev, ns, args, loop)
+            records.append({'step': step_no, 'probe': p, 'ns': ns, 'ev': ev, 'args': args, 'impl': impl,
+                            'reg': read_registry(obj), 'oracle': oracle_dyn(kind, sh, ns, ev),
+                            'rids': slot_rids(sh, ns, ev)})
+    dispatch(-1, sc.get('first', []))
+    for i, step in enumerate(sc['steps']):
+        co = {'sync': False, 'coroutine': True}.get(sc['mode'], bool(step.get('co')))
+        apply_step(obj, kind, log, sh, live, step, co, i)
+        dispatch(i, step.get('dispatch', []))
+    return records
+
+
+def judge_evolving(ctx, sc, records, answers, stats):
+    """Every dispatch of the scenario against model and oracle; the FIRST failing dispatch is reported
+    (later ones are usually consequences)."""
+    kind = sc['kind']
+    last = {}           # probe -> (slot, rid) the oracle expected at its previous dispatch
+    history = {}
+    reported = False
+    for rec, ans in zip(records, answers):
+        m, s = model_view(ans['model']), model_view(ans['spec'])
+        o = rec['oracle']
+        want_oracle = view_dyn(kind, o, o.get('rid'), rec['args'])
+        want_model = view_dyn(kind, m, rec['rids'].get(m.get('slot')), rec['args'])
+        want_spec = view_dyn(kind, s, rec['rids'].get(s.get('slot')), rec['args'])
+        ok_oracle = same_view(rec['impl'], want_oracle)
+        ok_model = same_view(rec['impl'], want_model)
+        ok_spec = same_view(want_oracle, want_spec)
+        now = (o.get('slot'), o.get('rid'), o['res'])
+        p = rec['probe']
+        ctx.count('evolving.res.' + o['res'] + ('.' + o['slot'] if 'slot' in o else ''))
+        if p in last:
+            if last[p] == now:
+                ctx.count('evolving.redispatch.same_target')
+            elif last[p][0] == now[0]:
+                stats['replaced'] += 1
+                ctx.count('evolving.redispatch.same_slot_new_object')
+            else:
+                stats['takeover'] += 1
+                ctx.count('evolving.redispatch.taken_over_by.%s' % (now[0] or 'nothing'))
+                ctx.count('evolving.takeover.%s>%s' % (last[p][0] or 'none', now[0] or 'none'))
+        last[p] = now
+        history.setdefault(p, []).append({'after_step': rec['step'], 'expected': repr(want_oracle),
+                                          'observed': repr(rec['impl'])})
+        if reported or (ok_oracle and ok_model and ok_spec):
+            continue
+        reported = True
+        rep = {'evolving': sc,
+               'failed_at': {'after_step': rec['step'], 'probe': [rec['ns'], rec['ev']],
+                             'registration': sc['steps'][rec['step']] if rec['step'] >= 0 else None},
+               'impl': repr(rec['impl']), 'model': repr(m), 'oracle': repr(o),
+               'registry_at_that_moment': {'fn': rec['reg'][0], 'cls': rec['reg'][1]},
+               'history_of_this_pair': history[p]}
+        if not ok_oracle:
+            stats['oracle_fail'] += 1
+            ctx.violation('oracle', 'documented precedence violated by %s._trigger_event(%r, %r) after the registry '
+                          'changed (registration %r): expected %r, observed %r'
+                          % (kind, rec['ev'], rec['ns'], rep['failed_at']['registration'], want_oracle, rec['impl']), rep)
+        if not ok_model:
+            stats['model_fail'] += 1
+            ctx.violation('correspondence', 'Sio.Dispatch.resolve on the registry of the moment differs from %s.'
+                          '_trigger_event' % kind, rep, no_input=ok_oracle)
+        if not ok_spec and ok_model and ok_oracle:
+            ctx.violation('correspondence', 'Lean specification table and the Python oracle disagree (evolving '
+                          'registry)', rep, no_input=True)
+
+
+def execute_evolving(ctx, scenarios, loop, stats, samples):
+    recs, ops = [], []
+    for sc in scenarios:
+        r = run_evolving(sc, loop)
+        recs.append(r)
+        ops += [model_op({'kind': sc['kind'], 'ns': x['ns'], 'ev': x['ev']}, x['reg']) for x in r]
+    answers = C.batch('dispatch', ops)
+    at = 0
+    for sc, r in zip(scenarios, recs):
+        judge_evolving(ctx, sc, r, answers[at:at + len(r)], stats)
+        at += len(r)
+        stats['evolving_cases'] += len(r)
+        ctx.count('evolving.scenarios.' + sc['tag'])
+        ctx.count('evolving.kind.' + sc['kind'])
+        for st in sc['steps']:
+            ctx.count('evolving.registration.' + st['op'] + ('.' + st['via'] if 'via' in st else ''))
+        if sc['tag'] == 'random' and len(samples) < 2 and len(sc['steps']) >= 5:
+            samples.append({'scenario': sc, 'dispatches': [
+                {'after_step': x['step'], 'pair': [x['ns'], x['ev']], 'observed': repr(x['impl'])} for x in r[:12]]})
+
+
+def evolving_probes(ns, ev, kind):
+    """the pair under test, then its neighbours (other event, other namespace, a reserved / an ordinary
+    event): all of them are dispatched again after every change"""
+    other_ev = 'connect' if ev not in DOC_RESERVED[kind] else 'my event'
+    return [[ns, ev], [ns, ev + '~other'], [ns + '/other', ev], [ns, other_ev], [ns + '/other', other_ev]]
+
+
+def exhaustive_evolving(ctx, reserved_by_kind):
+    """pairs, replacements and whole chains on all four classes"""
+    rng = ctx.rng
+    perms = list(itertools.permutations(SLOTS))
+    for kind in KINDS:
+        events = ['my event'] + sorted(set(reserved_by_kind[kind]) | DOC_RESERVED[kind])
+        for mode in ('sync', 'coroutine'):
+            for ev in events:
+                for ns, reg_ns in (('/chat', '/chat'), ('/', None)):
+                    if ns == '/' and ev not in ('my event', 'disconnect'):
+                        continue
+                    probes = evolving_probes(ns, ev, kind)
+                    allp = list(range(len(probes)))
+                    base = {'kind': kind, 'mode': mode, 'probes': probes, 'first': allp}
+                    # (a) every ordered pair of slots: the first registered, dispatched, then the second
+                    for a, b in itertools.permutations(SLOTS, 2):
+                        via = VIAS[(SLOTS.index(a) + SLOTS.index(b)) % 3]
+                        yield dict(base, tag='pair', steps=[
+                            dict(slot_step(a, reg_ns, ev, via=via), dispatch=allp),
+                            dict(slot_step(b, reg_ns, ev, via=via), dispatch=allp)])
+                    # (b) a slot is filled again with a NEW object while another slot is (or is not) filled
+                    for a in SLOTS:
+                        for b in [None] + [x for x in SLOTS if x != a]:
+                            steps = [] if b is None else [dict(slot_step(b, reg_ns, ev), dispatch=allp)]
+                            steps += [dict(slot_step(a, reg_ns, ev, via='decorator'), dispatch=allp),
+                                      dict(slot_step(a, reg_ns, ev, via='handler'), dispatch=allp)]
+                            yield dict(base, tag='replace', steps=steps)
+                    # (c) a class-based namespace gains the method after it was registered and used
+                    for a in ('clsNs', 'clsStar'):
+                        key = reg_ns if a == 'clsNs' else '*'
+                        yield dict(base, tag='method_added', steps=[
+                            dict(slot_step(a, reg_ns, ev, methods=[]), dispatch=allp),
+                            {'op': 'setattr', 'ns': key, 'ev': ev, 'dispatch': allp},
+                            {'op': 'setattr', 'ns': key, 'ev': ev, 'dispatch': allp}])
+        # (d) whole chains: all six slots one after the other, a dispatch round after each; lowest
+        # precedence first (every registration must take over), highest first (none may), and other orders
+        some = [tuple(LOWEST_FIRST), tuple(reversed(LOWEST_FIRST))]
+        some += perms if ctx.thorough else [perms[rng.randrange(len(perms))] for _ in range(16)]
+        for i, perm in enumerate(some):
+            for ev in ('my event', 'disconnect', 'connect'):
+                probes = evolving_probes('/chat', ev, kind)
+                allp = list(range(len(probes)))
+                yield {'kind': kind, 'mode': ('sync', 'coroutine', 'mixed')[i % 3], 'probes': probes, 'first': allp,
+                       'tag': 'chain',
+                       'steps': [dict(slot_step(a, '/chat', ev, via=VIAS[(i + j) % 3]), dispatch=allp, co=(i + j) % 2)
+                                 for j, a in enumerate(perm)]}
+
+
+def random_scenario(rng):
+    kind = rng.choice(KINDS)
+    nss, evs = [], []
+    while len(nss) < 2:
+        x = gen_ns(rng)
+        if x not in nss:
+            nss.append(x)
+    while len(evs) < 3:
+        x = gen_name(rng, kind)
+        if x not in evs:
+            evs.append(x)
+    pairs = [[a, b] for a in nss for b in evs]
+    rng.shuffle(pairs)
+    probes = pairs[:rng.randint(3, 6)]
+    ns, ev = probes[0]
+    n = rng.randint(3, 8)
+    steps = []
+
+    def methods():
+        return [e for e in evs if rng.random() < 0.7]
+
+    def free():
+        r = rng.random()
+        classes = sorted(set((s['ns'] or '/') for s in steps if s['op'] == 'cls'))
+        if r < 0.6:
+            return {'op': 'on', 'ns': rng.choice(nss + ['*']), 'ev': rng.choice(evs + ['*', '*']),
+                    'via': rng.choice(VIAS)}
+        if r < 0.88 or not classes:
+            return {'op': 'cls', 'ns': rng.choice(nss + ['*']), 'methods': methods()}
+        return {'op': 'setattr', 'ns': rng.choice(classes), 'ev': rng.choice(evs)}
+    shape = rng.random()
+    if shape < 0.5:
+        # the slots of the first pair, lowest precedence first (every step must take over) or shuffled
+        avail = [s for s in LOWEST_FIRST if not (ev == '*' and s in ('fnNsEv', 'fnStarEv'))
+                 and not (ns == '*' and s in ('fnNsEv', 'fnNsStar', 'clsNs'))]
+        chosen = [s for s in avail if rng.random() < 0.75] or avail[:1]
+        if shape >= 0.3:
+            rng.shuffle(chosen)
+        steps = [slot_step(s, ns, ev, methods=methods() if rng.random() < 0.6 else None, via=rng.choice(VIAS))
+                 for s in chosen]
+        shape_tag = 'lowest_first' if shape < 0.3 else 'slots_shuffled'
+    else:
+        shape_tag = 'free'
+    out = []
+    for st in steps:
+        out.append(st)
+        if rng.random() < 0.25:         # the same key again, with a new function / namespace object
+            out.append(dict(rng.choice(out)))
+    steps = out[:8]
+    while len(steps) < n:
+        if steps and rng.random() < 0.25:
+            steps.insert(rng.randint(1, len(steps)), dict(rng.choice(steps)))
+        else:
+            steps.insert(rng.randint(0, len(steps)), free())
+    # a method can only be added to a class-based namespace that is registered by then
+    seen, fixed = set(), []
+    for st in steps:
+        st = dict(st)
+        if st['op'] == 'cls':
+            st['methods'] = list(st['methods'])
+            seen.add(st['ns'] or '/')
+        if st['op'] == 'setattr' and (st['ns'] or '/') not in seen:
+            st = {'op': 'cls', 'ns': st['ns'], 'methods': [st['ev']]}
+            seen.add(st['ns'] or '/')
+        if st['op'] == 'on' and st['ns'] == '/' and rng.random() < 0.3:
+            st['ns'] = None             # the default namespace, left out
+        st['co'] = int(rng.random() < 0.5)
+        st['dispatch'] = [i for i in range(len(probes)) if rng.random() < 0.8]
+        fixed.append(st)
+    return {'kind': kind, 'mode': rng.choice(['sync', 'coroutine', 'mixed']), 'probes': probes,
+            'first': [i for i in range(len(probes)) if rng.random() < 0.8], 'tag': 'random', 'shape': shape_tag,
+            'steps': fixed}
+
+
 def prepare(ctx):
     """called by the runner before the driver is built"""
     try:
@@ -418,14 +769,20 @@ def run(ctx):
             reserved_by_kind[k] = sorted(set(reserved_by_kind[k]) | set(live[k]))
 
     loop = asyncio.new_event_loop()
-    stats = {'oracle_fail': 0, 'model_fail': 0}
-    nontrivial, samples = set(), []
+    stats = {'oracle_fail': 0, 'model_fail': 0, 'evolving_cases': 0, 'takeover': 0, 'replaced': 0}
+    nontrivial, samples, evo_samples = set(), [], []
     try:
         ex = list(exhaustive_cases(reserved_by_kind))
         execute(ctx, ex, loop, stats, nontrivial, samples)
         n_rand = ctx.scale(4000, 80000)
         rnd = [random_case(ctx.rng) for _ in range(n_rand)]
         execute(ctx, rnd, loop, stats, nontrivial, samples)
+        # registries that change between dispatches
+        evo = list(exhaustive_evolving(ctx, reserved_by_kind))
+        n_evo_ex = len(evo)
+        evo += [random_scenario(ctx.rng) for _ in range(ctx.scale(1200, 20000))]
+        for at in range(0, len(evo), 2000):
+            execute_evolving(ctx, evo[at:at + 2000], loop, stats, evo_samples)
     finally:
         loop.close()
     if ctx.thorough:
@@ -440,7 +797,8 @@ def run(ctx):
         seen, kept = set(), []
         for v in ctx.violations:
             key = (v['kind'], v['no_input'], str(v['replay'].get('case', {}).get('kind')) if isinstance(
-                v['replay'].get('case'), dict) else '')
+                v['replay'].get('case'), dict) else '', str(v['replay'].get('evolving', {}).get('kind')) if isinstance(
+                v['replay'].get('evolving'), dict) else '')
             if key not in seen:
                 seen.add(key)
                 kept.append(v)
@@ -456,18 +814,69 @@ def run(ctx):
                 'recorders}; for `disconnect` additionally handlers with the legacy signature (one parameter fewer: '
                 'TypeError retry path, function handlers and class methods); plus random namespaces, event names (reserved ones included), argument lists. '
                 'non-trivial = at least two of the six targets registered (precedence decides)',
-        'samples': samples, 'traces_validated_against_impl': len(ex) + len(rnd),
+        'samples': samples, 'traces_validated_against_impl': len(ex) + len(rnd) + stats['evolving_cases'],
         'oracle_failures': stats['oracle_fail'], 'model_disagreements': stats['model_fail'],
+        'evolving_registry_scenarios': len(evo), 'evolving_registry_exhaustive_scenarios': n_evo_ex,
+        'evolving_registry_random_scenarios': len(evo) - n_evo_ex,
+        'evolving_registry_cases': stats['evolving_cases'],
+        'evolving_registry_takeovers': stats['takeover'],
+        'evolving_registry_replacements': stats['replaced'],
+        'evolving_rule': 'one real object per scenario; registrations (on() as call / decorator, event(), register_namespace(), '
+                         'a method added to a registered class-based namespace, the same key again with a new object) '
+                         'interleaved with dispatches of the same (namespace, event) pairs; every dispatch compared with '
+                         'Sio.Dispatch.resolve on the registry read back at that moment and with the precedence table on '
+                         'the registrations made so far.  exhaustive: every ordered pair of the six slots, every slot '
+                         'replaced with each other slot present, method added later, x {ordinary, each reserved event} x 4 '
+                         'classes x {sync, coroutine}; chains over all six slots (lowest first, highest first, %s '
+                         'orders); random: 3-8 registrations.  takeover = the expected target of a pair differs from the one '
+                         'at its previous dispatch; replacement = same slot, new object.  No unregister API exists.'
+                         % ('all 720' if ctx.thorough else '16 sampled'),
+        'evolving_samples': evo_samples,
     })
     ctx.assumptions += ['namespace and event names are str without lone surrogates ("*" included for both)',
                         'handlers are truthy callables accepting the arguments they are given',
                         'class-based namespaces do not override trigger_event']
 
 
+def replay_evolving(sc):
+    sc = C.unjsonable(sc)
+    regen.run(C.REPO)
+    C.build_driver('dispatch')
+    loop = asyncio.new_event_loop()
+    try:
+        records = run_evolving(sc, loop)
+    finally:
+        loop.close()
+    answers = C.batch('dispatch', [model_op({'kind': sc['kind'], 'ns': x['ns'], 'ev': x['ev']}, x['reg'])
+                                   for x in records])
+    bad, at = 0, None
+    for rec, ans in zip(records, answers):
+        if rec['step'] != at:
+            at = rec['step']
+            print('--- %s' % ('before any registration' if at < 0 else 'after registration %d: %r' % (
+                at, {k: v for k, v in sc['steps'][at].items() if k not in ('dispatch', 'co')})))
+        o = rec['oracle']
+        want = view_dyn(sc['kind'], o, o.get('rid'), rec['args'])
+        m = model_view(ans['model'])
+        ok = same_view(rec['impl'], want)
+        ok_m = same_view(rec['impl'], view_dyn(sc['kind'], m, rec['rids'].get(m.get('slot')), rec['args']))
+        bad += not ok
+        print('  %s._trigger_event(%r, %r): oracle %s, model %s' % (sc['kind'], rec['ev'], rec['ns'],
+              'holds' if ok else 'VIOLATED', 'agrees' if ok_m else 'DIFFERS'))
+        if not (ok and ok_m):
+            print('      implementation :', rec['impl'])
+            print('      oracle expects :', want)
+            print('      model          :', m)
+    print('oracle verdict :', 'holds' if not bad else 'VIOLATED (%d dispatches)' % bad)
+    return 1 if bad else 0
+
+
 def replay(ctx, r):
     rep = r.get('replay', r)
     case = rep.get('case')
     print(json.dumps(r, indent=1)[:3000])
+    if isinstance(rep.get('evolving'), dict):
+        return replay_evolving(rep['evolving'])
     if not isinstance(case, dict):
         print('no executable case in this replay (theorem / translator failure): rerun ./check C13')
         return 0
